@@ -134,6 +134,9 @@ func genCtors(r *gen.Rand, n int) {
 		emit("newlimit", fmt.Sprint(i), b2s(e == nil))
 		emit("newlimit", fmt.Sprint(i), viaBuilder(func(b *retry.BackoffBuilder) { b.BaseBackoff(retry.NoDelayBackoff).WithLimit(int(i)) }))
 		emit("newlimit", fmt.Sprint(i), viaBuilder(func(b *retry.BackoffBuilder) { b.BaseBackoffSpec("fixed=5").WithJitter(0.1).WithLimit(int(i)) }))
+		// the layer under test BELOW acceptable ones: its refusal must still be Build's answer
+		emit("newlimit", fmt.Sprint(i), viaBuilder(func(b *retry.BackoffBuilder) { b.BaseBackoffSpec("fixed=5").WithLimit(int(i)).WithJitter(0.1) }))
+		emit("newlimit", fmt.Sprint(i), viaBuilder(func(b *retry.BackoffBuilder) { b.BaseBackoff(retry.NoDelayBackoff).WithLimit(int(i)).WithLimit(7).WithJitterBound(0, 0.5) }))
 		for _, mx := range ints {
 			_, e := retry.NewRandomBackoff(i, mx)
 			emit("newrandom", fmt.Sprintf("%d %d", i, mx), b2s(e == nil))
@@ -156,6 +159,8 @@ func genCtors(r *gen.Rand, n int) {
 			emit("newjitter", fmt.Sprintf("%s %s", fb(lo), fb(hi)), b2s(e == nil))
 			if r.Intn(3) == 0 {
 				emit("newjitter", fmt.Sprintf("%s %s", fb(lo), fb(hi)), viaBuilder(func(b *retry.BackoffBuilder) { b.BaseBackoffSpec("fixed=1").WithJitterBound(lo, hi) }))
+				emit("newjitter", fmt.Sprintf("%s %s", fb(lo), fb(hi)), viaBuilder(func(b *retry.BackoffBuilder) { b.BaseBackoffSpec("fixed=1").WithJitterBound(lo, hi).WithLimit(4) }))
+				emit("newjitter", fmt.Sprintf("%s %s", fb(lo), fb(hi)), viaBuilder(func(b *retry.BackoffBuilder) { b.BaseBackoffSpec("fixed=1").WithLimit(2).WithJitterBound(lo, hi).WithJitter(0.5) }))
 			}
 		}
 	}
@@ -256,7 +261,12 @@ func genBackoff(r *gen.Rand) bdesc {
 		return d
 	}
 	base := d.b
-	for l := r.Intn(4); l > 0; l-- {
+	nl := r.Intn(4)
+	if r.Intn(6) == 0 {
+		nl = 4 + r.Intn(14) // deep stacks: "all layerings built by the builder", far beyond any initial capacity
+		stats["delay:deep-stack"]++
+	}
+	for l := nl; l > 0; l-- {
 		if r.Bool() {
 			lim := 1 + r.Intn(6)
 			if r.Intn(10) == 0 {
@@ -636,73 +646,175 @@ func genBuilderSeq(r *gen.Rand, n int) {
 		return "pfnone"
 	}
 	validSpecs := []string{"fixed=7", "fixed=", "random=1:9", "random=:", "exponential=10:100:3", "exponential=::", "exponential=5:50:1.5"}
-	for k := 0; k < n; k++ {
-		bld := retry.NewBackoffBuilder()
-		var toks, outs []string
-		builds := 0
-		// a configuration call that panics is recorded as an extra outcome (the model has none: a disagreement)
+	type bsq struct {
+		bld    *retry.BackoffBuilder
+		toks   []string
+		outs   []string
+		builds int
+	}
+	// one builder call, chosen by c (0-2 spec, 3 base, 4 nil base, 5 limit, 6 jitter bound, 7 jitter, 8+ Build; 20 = a valid
+	// layer, 21 = an INVALID layer); a configuration call that panics is recorded as an extra outcome (the model has none)
+	var apply func(st *bsq, c int)
+	apply = func(st *bsq, c int) {
 		safe := func(f func()) {
 			defer func() {
 				if rec := recover(); rec != nil {
-					outs = append(outs, fmt.Sprintf("panic in a configuration call (%v)", rec))
+					st.outs = append(st.outs, fmt.Sprintf("panic in a configuration call (%v)", rec))
 				}
 			}()
 			f()
 		}
-		for steps := 3 + r.Intn(8); steps > 0 || builds == 0; steps-- {
-			switch c := r.Intn(12); {
-			case c < 3: // a specification: mostly valid ones, so that there is a remembered base to go stale
-				sp := validSpecs[r.Intn(len(validSpecs))]
-				if r.Intn(3) == 0 {
-					sp = genSpecString(r)
-				}
-				safe(func() { bld.BaseBackoffSpec(sp) })
-				toks = append(toks, "S", "x"+hex.EncodeToString([]byte(sp)), pfOf(sp))
-			case c == 3: // an explicit base
-				d := int64(r.Intn(1000))
-				fx, _ := retry.NewFixedBackoff(d)
-				safe(func() { bld.BaseBackoff(fx) })
-				toks = append(toks, "B", "F", fmt.Sprint(d))
-			case c == 4:
-				safe(func() { bld.BaseBackoff(nil) })
-				toks = append(toks, "N")
-			case c == 5:
-				lim := 1 + r.Intn(5) - r.Intn(2)*r.Intn(3)
-				safe(func() { bld.WithLimit(lim) })
-				toks = append(toks, "l", fmt.Sprint(lim))
-			case c == 6:
-				lo, hi := jrate(r), jrate(r)
-				if r.Intn(3) > 0 && lo > hi {
-					lo, hi = hi, lo
-				}
+		bld := st.bld
+		switch {
+		case c < 3: // a specification: mostly valid ones, so that there is a remembered base to go stale
+			sp := validSpecs[r.Intn(len(validSpecs))]
+			if r.Intn(3) == 0 {
+				sp = genSpecString(r)
+			}
+			safe(func() { bld.BaseBackoffSpec(sp) })
+			st.toks = append(st.toks, "S", "x"+hex.EncodeToString([]byte(sp)), pfOf(sp))
+		case c == 3: // an explicit base
+			d := int64(r.Intn(1000))
+			fx, _ := retry.NewFixedBackoff(d)
+			safe(func() { bld.BaseBackoff(fx) })
+			st.toks = append(st.toks, "B", "F", fmt.Sprint(d))
+		case c == 4:
+			safe(func() { bld.BaseBackoff(nil) })
+			st.toks = append(st.toks, "N")
+		case c == 5:
+			lim := 1 + r.Intn(5) - r.Intn(2)*r.Intn(3)
+			safe(func() { bld.WithLimit(lim) })
+			st.toks = append(st.toks, "l", fmt.Sprint(lim))
+		case c == 6:
+			lo, hi := jrate(r), jrate(r)
+			if r.Intn(3) > 0 && lo > hi {
+				lo, hi = hi, lo
+			}
+			bld.WithJitterBound(lo, hi)
+			st.toks = append(st.toks, "j", fb(lo), fb(hi))
+		case c == 7:
+			x := jrate(r)
+			bld.WithJitter(x)
+			st.toks = append(st.toks, "w", fb(x))
+		case c == 20: // a layer every constructor accepts
+			switch r.Intn(3) {
+			case 0:
+				lim := 1 + r.Intn(9)
+				bld.WithLimit(lim)
+				st.toks = append(st.toks, "l", fmt.Sprint(lim))
+			case 1:
+				lo, hi := []float64{-1, -0.5, 0, 0}[r.Intn(4)], []float64{0, 0.25, 1, 0.5}[r.Intn(4)]
 				bld.WithJitterBound(lo, hi)
-				toks = append(toks, "j", fb(lo), fb(hi))
-			case c == 7:
-				x := jrate(r)
-				bld.WithJitter(x)
-				toks = append(toks, "w", fb(x))
+				st.toks = append(st.toks, "j", fb(lo), fb(hi))
 			default:
-				builds++
-				toks = append(toks, "D")
-				outs = append(outs, func() (res string) {
-					defer func() {
-						if recover() != nil {
-							res = "panic"
-						}
-					}()
-					b, err := bld.Build()
-					if err != nil {
-						return "err"
+				x := []float64{0, 0.1, 0.5, 1, -0.3}[r.Intn(5)]
+				bld.WithJitter(x)
+				st.toks = append(st.toks, "w", fb(x))
+			}
+		case c == 21: // a layer its constructor refuses
+			switch r.Intn(4) {
+			case 0:
+				lim := -r.Intn(3)
+				bld.WithLimit(lim)
+				st.toks = append(st.toks, "l", fmt.Sprint(lim))
+			case 1:
+				lo, hi := []float64{0.5, -2, 0, math.NaN()}[r.Intn(4)], []float64{-0.5, 0, 1.5, 0.5}[r.Intn(4)]
+				bld.WithJitterBound(lo, hi)
+				st.toks = append(st.toks, "j", fb(lo), fb(hi))
+			default:
+				x := []float64{1.5, -1.01, math.NaN(), math.Inf(1), 2}[r.Intn(5)]
+				bld.WithJitter(x)
+				st.toks = append(st.toks, "w", fb(x))
+			}
+		default:
+			st.builds++
+			st.toks = append(st.toks, "D")
+			st.outs = append(st.outs, func() (res string) {
+				defer func() {
+					if recover() != nil {
+						res = "panic"
 					}
-					return "ok " + describe(b)
-				}())
-			}
-			if steps < -20 {
-				break
-			}
+				}()
+				b, err := bld.Build()
+				if err != nil {
+					return "err"
+				}
+				return "ok " + describe(b)
+			}())
 		}
-		stats["bseq:builds"] += builds
-		emit("bseq", strings.Join(toks, " "), strings.Join(outs, " ; "))
+	}
+	flush := func(st *bsq) {
+		stats["bseq:builds"] += st.builds
+		emit("bseq", strings.Join(st.toks, " "), strings.Join(st.outs, " ; "))
+	}
+	for k := 0; k < n; k++ {
+		switch k % 8 {
+		case 1: // deep stacks: many more layers than any initial capacity, mostly acceptable ones, built (twice)
+			st := &bsq{bld: retry.NewBackoffBuilder()}
+			apply(st, r.Intn(4))
+			for depth := 5 + r.Intn(16); depth > 0; depth-- {
+				if r.Intn(12) == 0 {
+					apply(st, 5+r.Intn(3))
+				} else {
+					apply(st, 20)
+				}
+				if r.Intn(9) == 0 {
+					apply(st, 8)
+				}
+			}
+			apply(st, 8)
+			if r.Intn(2) == 0 {
+				apply(st, 20)
+				apply(st, 8)
+			}
+			stats["bseq:deep"]++
+			flush(st)
+		case 3: // a refused layer anywhere in the stack - below acceptable ones, between them, on top: Build answers with its error
+			st := &bsq{bld: retry.NewBackoffBuilder()}
+			apply(st, r.Intn(4))
+			for j := r.Intn(3); j > 0; j-- {
+				apply(st, 20)
+			}
+			apply(st, 21)
+			for j := r.Intn(4); j > 0; j-- {
+				apply(st, 20)
+			}
+			apply(st, 8)
+			stats["bseq:badlayer"]++
+			flush(st)
+		case 5: // two (three) builders alive at once, their calls interleaved: each must build what IT was given
+			sts := []*bsq{{bld: retry.NewBackoffBuilder()}, {bld: retry.NewBackoffBuilder()}}
+			if r.Intn(3) == 0 {
+				sts = append(sts, &bsq{bld: retry.NewBackoffBuilder()})
+			}
+			for _, st := range sts {
+				apply(st, r.Intn(4))
+			}
+			for steps := 4 + r.Intn(10); steps > 0; steps-- {
+				st := sts[r.Intn(len(sts))]
+				if c := r.Intn(10); c < 6 {
+					apply(st, 20)
+				} else if c < 8 {
+					apply(st, r.Intn(8))
+				} else {
+					apply(st, 8)
+				}
+			}
+			for _, st := range sts {
+				apply(st, 8)
+				flush(st)
+			}
+			stats["bseq:interleaved"]++
+		default:
+			st := &bsq{bld: retry.NewBackoffBuilder()}
+			for steps := 3 + r.Intn(8); steps > 0 || st.builds == 0; steps-- {
+				apply(st, r.Intn(12))
+				if steps < -20 {
+					break
+				}
+			}
+			flush(st)
+		}
 	}
 }
 
